@@ -3,7 +3,7 @@ four sibling timer classes, and the retrograde pairing in MonoTimer.latest."""
 import ast
 
 from .absint import Domain, Interp, NORMAL, RETURN, RAISE, is_raise
-from .astutil import unparse, kwarg, is_self_call
+from .astutil import unparse, kwarg, is_self_call, oriented
 from .index import dotted, walk_local
 from .linear import linform, canon_compare, same, show
 from .loader import AnalysisError
@@ -120,9 +120,9 @@ class RetroDomain(Domain):
 
     def assume(self, test, truth, state):
         neg, retro, shifted = state
-        if isinstance(test, ast.Compare) and dotted(test.left) == self.delta and len(test.ops) == 1 \
-                and getattr(test.comparators[0], "value", None) == 0:
-            op = type(test.ops[0]).__name__
+        o = oriented(test, lambda e: dotted(e) == self.delta)
+        if o and getattr(o[2], "value", None) == 0:
+            op = o[1]
             if op == "Lt":
                 return (truth, retro, shifted)
             if op == "GtE":
